@@ -179,7 +179,7 @@ impl ErrInto<DetachError> for DetachError { open spec fn conv(self) -> DetachErr
 //@@ nowhere
 //@@ qmark
 //@@ param link_inner : &mut EndS
-//@@ subst `link_inner .reattach_inner() .map_err(|_v0| DetachError::DetachedByRemote)?` => `(match link_inner.reattach_inner() { Ok(v) => v, Err(_e) => return Err(DetachError::DetachedByRemote) })` rule=R19
+//@@ subst `link_inner .reattach_inner() .map_err(|_v0| DetachError::DetachedByRemote)?` => `(match link_inner.reattach_inner() { Ok(v) => v, Err(_e) => return Err(DetachError::DetachedByRemote) })` rule=R19 unless `\.map_err\(`
 //@@ spec
     ensures
         final(link_inner).sent@ == old(link_inner).sent@ || final(link_inner).sent@ == old(link_inner).sent@.push((true, None::<AmqpError>)),   // [C13.link.reattach-then-one-closing-detach] after the re-attach exactly one closing detach (without an error of our own) is sent, or none if the re-attach failed
